@@ -134,3 +134,21 @@ func VerifC02_RegexExample() {
 		zzverif.Reach("error")
 	}
 }
+
+// VerifC10_RegexExamples: the example of a regex schema is the same whether
+// its object is the first one the process handles or comes after other
+// objects with the same (or another) pattern.
+func VerifC10_RegexExamples() {
+	zzverif.Expect("compared")
+	pats := []string{"[a-z]{3}\\d", "(ab|cd)+x?", "\\w+@\\w+", "a{2}"}
+	p := pats[zzverif.IntRange("pattern", 0, len(pats)-1)]
+	q := pats[zzverif.IntRange("before", 0, len(pats)-1)]
+	ref, rerr := New("ref", "/"+p+"/").Example()
+	n := zzverif.IntRange("earlier", 0, 2)
+	for i := 0; i < n; i++ {
+		_, _ = New("other", "/"+q+"/").Example()
+	}
+	got, gerr := New("late", "/"+p+"/").Example()
+	zzverif.Reach("compared")
+	zzverif.Assert((rerr == nil) == (gerr == nil) && string(ref) == string(got), "Example() of a regex schema does not depend on the objects handled before")
+}
